@@ -76,6 +76,11 @@ def gen_dense(rng, thorough):
                 p[i] += rng.randint(-step, step)
     memory = rng.choice([0, 0, 1, 2])
     maxa = rng.choice([2, 3, 4, 5, 6, 15])
+    if maxa == 15 and npart > 9 and (shape in ("blob", "two-blobs") or dim == 1):
+        # an all-to-all group of 10-15 sources is legal for the unpatched limit but takes the
+        # branch and bound (the code's and the model's) minutes: keep the unpatched limit for
+        # chains / rings and small blobs
+        maxa = 6
     pq = rng.choice([(1, 2), (3, 4), (7, 8)])
     # stop as sigma/8 with rho = stop / min range in [0.35, 1.05]
     rmin = min(sr)                     # quarters
